@@ -75,7 +75,6 @@ SAugQuick(dummy) ==
       cc \in {"unset", "false"}, t1 \in Targets, p1 \in Payloads("b"), t2 \in ChainTargets, p2 \in ChainPayloads }
 MCOrder == <<"a", "b", "c", "as", "bs">>
 MCOrder2 == <<"a", "as", "b", "bs", "c", "d", "ds", "u", "us", "w", "v">>
-SAugQuickSet == SAugQuick(0)
 
 \* thorough: two augments in b (written in either order), one in c, one in b's submodule bs
 ModBS(augs) == Mod("b", ImpA, <<"bs">>, << Stmt("grouping", "bg", << Leaf("bgl") >>) >> \o augs)
@@ -83,11 +82,9 @@ SubBS(augs) == Sub("bs", "b", ImpA, <<>>, augs)
 SAugSub(dummy) ==
   { Prog(("a" :> BaseA("unset")) @@ ("b" :> ModBS(<<Aug(t1, p1)>>)) @@ ("bs" :> SubBS(<<Aug(t2, p2)>>))) :
       t1 \in Targets, p1 \in Payloads("b"), t2 \in ChainTargets, p2 \in ChainPayloads }
-SAugSubSet == SAugSub(0)
 SAugTwo(dummy) ==
   { Prog(("a" :> BaseA("unset")) @@ ("b" :> ModB(<<Aug(t1, p1), Aug(t2, p2)>>)) @@ ("c" :> ModC(<<Aug(t3, << Leaf("y") >>)>>))) :
       t1 \in ChainTargets, p1 \in ChainPayloads, t2 \in ChainTargets, p2 \in ChainPayloads, t3 \in ChainTargets }
-SAugTwoSet == SAugTwo(0)
 
 \* ---- S_cfg: config at three depths, the subtrees placed by different mechanisms (C12) ----
 CfgK(v) == IF v = "unset" THEN <<>> ELSE << Cfg(v) >>
@@ -133,7 +130,6 @@ SCfg(dummy) ==
   \cup { CfgProg(w, "unset", "unset", "unset", m2, m3, insub) :
        w \in {"input", "output", "notif"}, m2 \in {"plain", "uses", "choice", "augment"},
        m3 \in {"plain", "uses", "choice", "augment"}, insub \in BOOLEAN }
-SCfgSet == SCfg(0)
 
 \* ---- S_uses: groupings defined and used in several places (C06) -------------------------
 \* definer module d (with submodule ds), user module u (with submodule us), a third module w
@@ -181,9 +177,83 @@ UsesProg(k, def, s1, s2, mut) ==
 SUses(dummy) ==
   { UsesProg(k, def, s1, s2, mut) : k \in 1..4, def \in {"d", "ds", "u"}, s1 \in Sites, s2 \in Sites,
                                     mut \in {"none", "augment", "notsupp", "config"} }
-SUsesSet == SUses(0)
 SUsesQuick(dummy) ==
   { UsesProg(k, def, s1, s2, mut) : k \in 1..4, def \in {"d", "ds", "u"}, s1 \in {"top", "input", "nested", "case"}, s2 \in {"top", "list", "notif"},
                                     mut \in {"none", "augment", "notsupp", "config"} }
-SUsesQuickSet == SUsesQuick(0)
+
+\* ---- S_dev: deviations (C08) -----------------------------------------------------------
+S1(kw, arg) == Stmt(kw, arg, <<>>)
+DevBase ==
+  << Stmt("grouping", "g", << LeafD("gl", "gd") >>),
+     LeafD("ld", "dv"),
+     Leaf("ln"),
+     Stmt("leaf", "lm", << S1("type", "string"), S1("mandatory", "true") >>),
+     Stmt("leaf-list", "ll", << S1("type", "string"), S1("min-elements", 2), S1("max-elements", 5) >>),
+     Stmt("leaf-list", "lld", << S1("type", "string"), S1("default", "a"), S1("default", "b") >>),
+     Stmt("list", "li", << S1("key", "k"), Leaf("k"), S1("min-elements", 2), S1("max-elements", 5) >>),
+     Stmt("container", "co", << Cfg("true"), Leaf("inner") >>),
+     Stmt("container", "u", << Uses("", "g") >>),
+     Stmt("container", "u2", << Uses("", "g") >>) >>
+DevTargets ==     \* [path, kind]
+  { [p |-> << Q("a","ld") >>, k |-> "leafd"], [p |-> << Q("a","ln") >>, k |-> "leaf"], [p |-> << Q("a","lm") >>, k |-> "leaf"],
+    [p |-> << Q("a","ll") >>, k |-> "leaf-list"], [p |-> << Q("a","lld") >>, k |-> "leaf-listd"],
+    [p |-> << Q("a","li") >>, k |-> "list"], [p |-> << Q("a","co") >>, k |-> "container"],
+    [p |-> << Q("a","u"), Q("a","gl") >>, k |-> "leafd"],
+    [p |-> << Q("a","co"), Q("b","grafted") >>, k |-> "leafd"],
+    [p |-> << Q("a","nosuch") >>, k |-> "absent"] }
+Dv(kind, kids) == Stmt("deviate", kind, kids)
+Deviates ==
+  { Dv("not-supported", <<>>), Dv("bogus", <<>>),
+    Dv("add", << Cfg("false") >>), Dv("add", << S1("default", "z") >>), Dv("add", << S1("mandatory", "true") >>),
+    Dv("add", << S1("min-elements", 1) >>), Dv("add", << S1("max-elements", 7) >>), Dv("add", << S1("units", "u") >>),
+    Dv("replace", << S1("default", "w") >>), Dv("replace", << S1("type", "int8") >>), Dv("replace", << S1("type", "nosuch") >>),
+    Dv("replace", << Cfg("true") >>), Dv("replace", << S1("max-elements", 3) >>), Dv("replace", << S1("min-elements", 4) >>),
+    Dv("replace", << S1("mandatory", "false") >>), Dv("replace", << S1("units", "v") >>),
+    Dv("replace", << S1("default", "w"), S1("units", "v"), Cfg("false") >>),
+    Dv("delete", << S1("default", "dv") >>), Dv("delete", << S1("default", "other") >>),
+    Dv("delete", << S1("min-elements", 2) >>), Dv("delete", << S1("min-elements", 9) >>), Dv("delete", << S1("max-elements", 5) >>),
+    Dv("delete", << S1("mandatory", "true") >>), Dv("delete", << Cfg("true") >>) }
+\* combinations on which the statement pins the outcome (DESIGN.md D.1, "outside" column)
+Leafish(k) == k \in {"leaf", "leafd", "leaf-list", "leaf-listd"}
+DevInClaim(k, d) ==
+  /\ (Has(d.kids, "default") /\ d.arg = "delete") => k \in {"leaf", "leafd"}       \* delete default on a leaf-list: unsupported by design
+  /\ (Has(d.kids, "default") /\ d.arg = "replace") => k \in {"leafd", "leaf-listd"} \* replace where none exists
+  /\ (Has(d.kids, "default") /\ d.arg = "add") => Leafish(k)
+  /\ (Has(d.kids, "type") \/ Has(d.kids, "units") \/ Has(d.kids, "mandatory")) => Leafish(k)
+  /\ k = "absent" => d.arg = "not-supported"
+Dev(t, ds) == Stmt("deviation", t.p, ds)
+ModDevB == Mod("b", ImpA, <<>>, << Aug(<< Q("a","co") >>, << LeafD("grafted", "dv") >>) >>)
+ImpABv == [x \in {"a", "b"} |-> x]
+DevProg(vbody, wbody, ign) ==
+  [mods |-> ("a" :> Mod("a", NoImp, <<>>, DevBase)) @@ ("b" :> ModDevB) @@ ("v" :> Mod("v", ImpABv, <<>>, vbody))
+            @@ (IF wbody = <<>> THEN << >> ELSE ("w" :> Mod("w", ImpABv, <<>>, wbody))),
+   ignoreNS |-> ign]
+\* one deviation with one deviate statement, every target x every deviate, both option settings for not-supported
+SDev1(dummy) ==
+  { DevProg(<< Dev(t, << d >>) >>, <<>>, ign) : t \in DevTargets, d \in {x \in Deviates : TRUE}, ign \in BOOLEAN }
+SDev1F(dummy) == { pr \in SDev1(0) :
+                LET dv == pr.mods["v"].body[1]
+                    t == CHOOSE x \in DevTargets : x.p = dv.arg IN
+                /\ DevInClaim(t.k, dv.kids[1])
+                /\ (pr.ignoreNS => dv.kids[1].arg = "not-supported") }
+\* two deviate statements in one deviation, in both written orders, on the targets with the richest rules
+PairTargets == {t \in DevTargets : t.k \in {"leafd", "leaf-list", "list", "leaf-listd"} /\ Len(t.p) = 1}
+SDev2(dummy) ==
+  { DevProg(<< Dev(t, << d1, d2 >>) >>, <<>>, FALSE) : t \in PairTargets,
+       d1 \in {x \in Deviates : x.arg \in {"add", "replace", "delete"}}, d2 \in {x \in Deviates : x.arg \in {"add", "replace", "delete", "not-supported"}} }
+SDev2F(dummy) == { pr \in SDev2(0) :
+                    LET dv == pr.mods["v"].body[1]
+                        t == CHOOSE x \in DevTargets : x.p = dv.arg IN
+                    DevInClaim(t.k, dv.kids[1]) /\ DevInClaim(t.k, dv.kids[2]) /\ dv.kids[1] # dv.kids[2] }
+\* two deviations (same or different targets) in one module; two deviating modules with disjoint attributes
+SDev3(dummy) ==
+  { DevProg(<< Dev(t1, << d1 >>), Dev(t2, << d2 >>) >>, <<>>, FALSE) :
+       t1 \in {x \in DevTargets : x.p = << Q("a","ld") >>}, t2 \in {x \in DevTargets : x.k \in {"leafd", "container"}},
+       d1 \in {Dv("delete", << S1("default", "dv") >>), Dv("add", << Cfg("false") >>), Dv("not-supported", <<>>)},
+       d2 \in {Dv("add", << S1("default", "z") >>), Dv("replace", << S1("default", "w") >>), Dv("add", << Cfg("false") >>), Dv("not-supported", <<>>)} }
+  \cup
+  { DevProg(<< Dev(t, << d1 >>) >>, << Dev(t, << d2 >>) >>, FALSE) :
+       t \in {x \in DevTargets : x.k = "leafd"},
+       d1 \in {Dv("add", << Cfg("false") >>), Dv("replace", << S1("type", "int8") >>)},
+       d2 \in {Dv("replace", << S1("default", "w") >>), Dv("add", << S1("units", "u") >>), Dv("replace", << S1("mandatory", "false") >>)} }
 ====
